@@ -229,7 +229,8 @@ class PathEval(object):
     MAXSTATES = 20000
 
     def __init__(self, program, func, env, is_effect=None, pure=PURE, depth=0, fail_value=None, memo=None, maxstates=None, through_effects=False, dirty_paths=False,
-                 call_values=None, markers=None, observe=None, split=None, starts=None, track=None):
+                 call_values=None, markers=None, observe=None, split=None, starts=None, track=None, exact_counters=False):
+        self.exact_counters = exact_counters   # compute ++/--/+= on known values instead of widening them (bounded explorations only)
         self.track = track                 # optional set of lvalue keys whose constants are kept (others are treated as unknown: fewer states, more paths)
         self.starts = starts               # optional list of additional entry environments explored in the SAME run (shared state set)
         self.observe = observe             # callback(node, env) for every CFG element reached (in evaluation order)
@@ -467,6 +468,13 @@ class PathEval(object):
                 val = None
                 if op == "=":
                     val = self.evaluator(env).ev(rhs)
+                elif self.exact_counters and key is not None and key in env:
+                    if op in ("++", "--"):
+                        val = env[key] + (1 if op == "++" else -1)
+                    elif op in ("+=", "-=") and rhs is not None:
+                        rv = self.evaluator(env).ev(rhs)
+                        if rv is not None:
+                            val = env[key] + (rv if op == "+=" else -rv)
                 # counters (++, +=, ...) are widened to unknown so that loops converge
                 if key is not None:
                     self.kill(env, key)
